@@ -690,6 +690,28 @@ where
                 opening.push(format!("resize {size}"));
                 st.lock().unwrap().bump("opening_backlog_then_first_workers");
             }
+            if cfg.cc && cfg.n >= 2 && (cfg.router == "sq" || cfg.router == "q") && profile < 7 && rng.chance(1, 3) {
+                // every worker busy, a backlog with repeated keys, two workers finish (sticky routing then leaves one
+                // of them idle next to the backlog), the factory is held busy, an idle worker is killed, the release
+                // grows the pool: the flush hands a job to the dead idle worker
+                if cfg.disc != "none" {
+                    opening.push("settings none -".into());
+                }
+                for w in 0..cfg.n as u64 {
+                    opening.push(gen_dispatch_with(&mut next_id, 100 + w, "-", 0));
+                }
+                let (ka, kb) = (rng.below(nkeys.max(3)), rng.below(nkeys.max(3)) + 50);
+                for k in [ka, ka, kb, kb] {
+                    opening.push(gen_dispatch_with(&mut next_id, k, "-", 0));
+                }
+                opening.push("finish 0 ok".into());
+                opening.push("finish 1 ok".into());
+                opening.push("block".into());
+                opening.push(format!("kill {}", rng.pick(&[0u64, 1, 1])));
+                size = cfg.n + 1;
+                opening.push(format!("release {size}"));
+                st.lock().unwrap().bump("opening_kill_idle_worker_while_busy");
+            }
             let first_disc = cfg.disc.clone();
             for op in opening {
                 // a deep backlog needs room: lift the limit first
